@@ -24,7 +24,7 @@ Classes ==
                    "bad_replace_regex", "bad_case", "undefined_rewriter", "huge_index", "self_cycle", "unknown_kind",
                    \* valid transformations whose work depends on the captured text (case splitting, char indices)
                    "convert_snake", "convert_camel", "convert_kebab", "convert_pascal", "convert_upper", "convert_capitalize",
-                   "convert_separated", "substring_negative", "replace_valid", "chain"},
+                   "convert_separated", "substring_negative", "substring_crossed", "substring_reversed", "replace_valid", "chain"},
     fix       |-> {"absent", "string", "object", "expand_bad_rule", "number_type", "undefined_var", "sigils_only"},
     rewriters |-> {"absent", "valid", "duplicate_ids", "no_fix", "recursive", "clash_with_util"},
     severity  |-> {"default", "off", "invalid", "error"},
